@@ -157,6 +157,13 @@ def gen_cases(ctx, n_scale=1.0):
     for k in range(int(ctx.budget(3, 30) * n_scale)):
         cases.append({"kind": "hydro", "c1": [0.0, 0.0, 0.0], "c2": [rng.uniform(0.1, 0.25), rng.uniform(-0.05, 0.05), 0.0],
                       "r": 0.15, "tree": bool(k % 2), "lattice": False})
+    # 7b. broad phase: a BoundingVolumeHierarchy queried with colliders that overlap some, one or NONE of its colliders
+    for k in range(int(ctx.budget(8, 60) * n_scale)):
+        lattice = (k % 2 == 0)
+        cols = [scenes.collider_spec(rng, lattice, types=["Sphere", "Box", "Capsule", "Cylinder"]) for _ in range(rng.choice([1, 3, 6]))]
+        q_near = scenes.collider_spec(rng, lattice, types=["Sphere", "Box"])
+        q_far = scenes.translate(scenes.collider_spec(rng, lattice, types=["Sphere", "Box"]), np.array([500.0, -300.0, 200.0]))
+        cases.append({"kind": "bvh", "cols": cols, "queries": [q_near, q_far], "lattice": lattice})
     # 8. mesh support histories (cached start vertex)
     for k in range(int(ctx.budget(20, 200) * n_scale)):
         spec = scenes.collider_spec(rng, k % 2 == 0, types=["MeshGraph"])
@@ -272,6 +279,19 @@ def _run(case):
         else:
             r = ct.points_in_box(P, A, np.array(s))
         return _ser(np.asarray(r))
+    if k == "bvh":
+        from pytransform3d.transform_manager import TransformManager
+        from distance3d.broad_phase import BoundingVolumeHierarchy
+        tm = TransformManager(check=False)
+        bvh = BoundingVolumeHierarchy(tm, "base")
+        for i, spec in enumerate(case["cols"]):
+            tm.add_transform("c%d" % i, "base", np.eye(4))
+            bvh.add_collider("c%d" % i, scenes.build(spec))
+        out = []
+        for q in case["queries"]:
+            res = bvh.aabb_overlapping_colliders(scenes.build(q))
+            out.append(sorted(str(f) for f in res.keys()))
+        return _ser({"overlapping": out})
     if k == "aabbsets":
         from distance3d.aabb_tree import all_aabbs_overlap
         i1, i2, pairs = all_aabbs_overlap(case["a"], case["b"])
@@ -453,6 +473,8 @@ def case_json(case):
     for k, v in case.items():
         if k in ("c1", "c2", "spec") and isinstance(v, tuple):
             out[k] = scenes.spec_json(v)
+        elif k in ("cols", "queries"):
+            out[k] = [scenes.spec_json(x) for x in v]
         else:
             out[k] = core.jsonable(v)
     return out
@@ -463,6 +485,8 @@ def case_from_json(j):
     for k, v in j.items():
         if k in ("c1", "c2", "spec") and isinstance(v, list) and v and isinstance(v[0], str):
             out[k] = scenes.spec_from_json(v)
+        elif k in ("cols", "queries"):
+            out[k] = [scenes.spec_from_json(x) for x in v]
         elif k == "args":
             out[k] = [np.array(a, dtype=float) if isinstance(a, list) else a for a in v]
         elif k in ("a", "b") and j.get("kind") == "aabbsets":
